@@ -18,6 +18,7 @@ whose legs are structural; completeness of the search is NOT decided.
  R7 group constraints: the scan of a combination stops early only after a STRICT failure (shared with C11-R6).
  Rn arg roles     : a variable named like a parameter of the callee is handed to that parameter (no exchanged roles).
  R8 inputs        : every synchronization entry becomes a group; hop flags stay attached when route lists are edited (shared with C11-R4).
+ R9 reverse pairing : reversed_oms pairs OMS on swapped end uids (shared with C15).
 """
 import ast
 
@@ -524,6 +525,15 @@ def r8_inputs(ctx):
     ctx.need('R8.every-group', 1)
 
 
+
+def r9_reverse_pairing(ctx):
+    """R9: the reversed twin of a path is found through the reverse OMS of each crossed OMS, which reversed_oms pairs on swapped end
+    uids (first = other.last and last = other.first, two separate comparisons) - rule shared with C15"""
+    from .c15 import r4_walk as _r
+    from .common import proxy
+    _r(proxy(ctx, 'R9'))
+
+
 from ..memo import rule_for as _memo_rule
 
 RULES_MEMO = ('Rm.memo', _memo_rule('C12', 'candidates computed for another request would be reused'))
@@ -534,4 +544,4 @@ from ..presence import rule_for as _presence_rule
 RULES_PRESENCE = ('Rp.presence', _presence_rule('C12', 'a legal zero would be read as missing'))
 
 RULES = [('R1.acceptance', r1_acceptance), ('R2.shrink-only', r2_shrink), ('R3.must-raise', r3_raise), ('R4.cutoff', r4_cutoff),
-         ('R5.helper', r5_helper), ('R6.groups', r6_groups), RULES_MEMO, RULES_PRESENCE, ('R7.group-constraints', r7_group_constraints), ('Rn.arg-roles', rn_arg_roles), ('R8.inputs', r8_inputs)]
+         ('R5.helper', r5_helper), ('R6.groups', r6_groups), RULES_MEMO, RULES_PRESENCE, ('R7.group-constraints', r7_group_constraints), ('Rn.arg-roles', rn_arg_roles), ('R8.inputs', r8_inputs), ('R9.reversed', r9_reverse_pairing)]
